@@ -408,6 +408,10 @@ class SFNTWriter(object):
         return checksumadjustment
 
     def writeMasterChecksum(self, directory):
+        if self.tables["head"].length < 12:
+            # a (raw, damaged) 'head' too short to hold checkSumAdjustment: writing it
+            # would overwrite the table that follows
+            return
         checksumadjustment = self._calcMasterChecksum(directory)
         # write the checksum to the file
         self.file.seek(self.tables["head"].offset + 8)
@@ -585,9 +589,14 @@ class WOFFDirectoryEntry(DirectoryEntry):
         if self.length == self.origLength:
             data = rawData
         else:
-            assert self.length < self.origLength
-            data = zlib.decompress(rawData)
-            assert len(data) == self.origLength
+            if self.length > self.origLength:
+                raise TTLibError("bad WOFF directory entry for '%s': compressed length exceeds original length" % self.tag)
+            try:
+                data = zlib.decompress(rawData)
+            except zlib.error as e:
+                raise TTLibError("cannot decompress '%s' table: %s" % (self.tag, e))
+            if len(data) != self.origLength:
+                raise TTLibError("unexpected size of decompressed '%s' table" % self.tag)
         return data
 
     def encodeData(self, data):
@@ -618,14 +627,20 @@ class WOFFFlavorData:
             if reader.metaLength:
                 reader.file.seek(reader.metaOffset)
                 rawData = reader.file.read(reader.metaLength)
-                assert len(rawData) == reader.metaLength
-                data = self._decompress(rawData)
-                assert len(data) == reader.metaOrigLength
+                if len(rawData) != reader.metaLength:
+                    raise TTLibError("not enough data for the metadata block")
+                try:
+                    data = self._decompress(rawData)
+                except Exception as e:
+                    raise TTLibError("cannot decompress the metadata block: %s" % e)
+                if len(data) != reader.metaOrigLength:
+                    raise TTLibError("unexpected size of the decompressed metadata block")
                 self.metaData = data
             if reader.privLength:
                 reader.file.seek(reader.privOffset)
                 data = reader.file.read(reader.privLength)
-                assert len(data) == reader.privLength
+                if len(data) != reader.privLength:
+                    raise TTLibError("not enough data for the private data block")
                 self.privData = data
 
     def _decompress(self, rawData):
@@ -667,12 +682,12 @@ def readTTCHeader(file):
     sstruct.unpack(ttcHeaderFormat, data, self)
     if self.TTCTag != "ttcf":
         raise TTLibError("Not a Font Collection")
-    assert self.Version in (TTC_V1, TTC_V2), (
-        "unrecognized TTC version 0x%08x" % self.Version
-    )
-    self.offsetTable = struct.unpack(
-        ">%dL" % self.numFonts, file.read(self.numFonts * 4)
-    )
+    if self.Version not in (TTC_V1, TTC_V2):
+        raise TTLibError("unrecognized TTC version 0x%08x" % self.Version)
+    data = file.read(self.numFonts * 4)
+    if len(data) != self.numFonts * 4:
+        raise TTLibError("Not a Font Collection (not enough data)")
+    self.offsetTable = struct.unpack(">%dL" % self.numFonts, data)
     if self.Version == TTC_V2:
         # Unpack additional DSIG fields
         data = file.read(ttcTailSizeV2)
